@@ -15,7 +15,7 @@ SeqSet(s) == {s[i] : i \in 1..Len(s)}
 Nbr(n) == {m \in nodes : {n, m} \in topo}
 Reset == /\ Is("reset") /\ l' = l + 1 /\ bi' = Ev.b /\ nodes' = SeqSet(Ev.nodes) /\ topo' = {{e[1], e[2]} : e \in SeqSet(Ev.topo)}
          /\ pubs' = {} /\ lastAnn' = {} /\ allSent' = <<>> /\ allReads' = <<>> /\ frozen' = FALSE /\ UNCHANGED bad
-Skip == /\ (Is("init") \/ Is("toggle") \/ Is("inject")) /\ l' = l + 1
+Skip == /\ (Is("init") \/ Is("toggle") \/ Is("inject") \/ Is("relink")) /\ l' = l + 1
         /\ UNCHANGED <<bi, nodes, topo, pubs, lastAnn, allSent, allReads, frozen, bad>>
 LinkUp == Is("linkup") /\ l' = l + 1 /\ topo' = topo \cup {{Ev.a, Ev.b}} /\ UNCHANGED <<bi, nodes, pubs, lastAnn, allSent, allReads, frozen, bad>>
 Freeze == Is("freeze") /\ l' = l + 1 /\ frozen' = TRUE /\ UNCHANGED <<bi, nodes, topo, pubs, lastAnn, allSent, allReads, bad>>
